@@ -20,7 +20,11 @@ def run(ctx):
             if k is None:
                 continue
             import inline
-            v = View(inline.inlined(crate, b))
+            nb = inline.inlined(crate, b)
+            if k == "cs":
+                # one delegating call and what becomes of its two answers: `match`, `.map_err(..)`, `?` are the same thing
+                nb = inline.combinators_expanded(crate, nb)
+            v = View(nb)
             bs = BodySites(v)
             fs, ob, kind = coll.run_body(v, bs)
             if label.startswith("catalogue"):
